@@ -175,7 +175,34 @@ def src_check(modes, quick_n, thorough_n, rule, oracle):
             del rows
         if "blocks" in modes or "unbalanced" in modes:
             tagseq_component(rep, tier, seed)
+        if "tags" in modes:
+            scanner_component(rep, tier, seed)
+            tagseq_component(rep, tier, seed)
     return run
+
+
+def scanner_component(rep, tier, seed):
+    """the tag scanner alone (hook `tags` -> WinnowBlockTagParser) vs `Bw.Tag.scanAll` on every concatenation of at most 4
+    (thorough: 5) pieces from {bare / attributed / quoted start tags, end tags, look-alikes, `<`, `>`, blank, letters, line break,
+    unterminated tags}, WITHOUT separators: a tag as the very first / last bytes of the text, tags glued to each other"""
+    maxlen = 4 if tier == "quick" else 5
+    rep.rules.append(f"exhaustive: every concatenation of at most {maxlen} of 16 tag pieces without separators through the real scanner (hook) vs the Lean scanner: kind, byte range and attributes of every tag found; non-trivial = at least one tag found")
+    rows = K.run_component(rep.prop, f"tags {maxlen}", [], seed, 0, tier)
+    bad = 0
+    for case, impl, model in rows:
+        rep.evaluations += 1
+        rep.traces += 1
+        want = [({"k": "start", "s": t["s"], "e": t["e"], "attrs": t["attrs"]} if t.get("k") == "start" else {"k": "end", "s": t.get("s")}) for t in model] if isinstance(model, list) else model
+        if isinstance(impl, list) and impl:
+            rep.nontrivial.add(case["text"])
+        rep.count("scanner:" + ("panic" if isinstance(impl, dict) else f"{min(len(impl), 3)}+tags" if len(impl) >= 3 else f"{len(impl)}tags"))
+        if impl != want:
+            bad += 1
+            if bad <= 3:
+                rep.violation({"property": rep.prop, "component": "tag scanner (hook)", "what": "the real tag scanner and the proved scanner find different tags in this comment text",
+                               "case": case, "impl": impl, "model": want})
+    if bad > 3:
+        print(f"  ({bad} disagreeing texts in the scanner component; first 3 written as replays)")
 
 
 def oracle_dyck(case, impl):
@@ -1783,6 +1810,9 @@ def replay(prop, path):
         diffs = [] if impl == model or "outside" in model else [("glob", impl, model)]
     elif case.get("op") == "flags":
         diffs = [] if impl == model else [("flags", impl, model)]
+    elif case.get("op") == "tags":
+        want = [({"k": "start", "s": t["s"], "e": t["e"], "attrs": t["attrs"]} if t.get("k") == "start" else {"k": "end", "s": t.get("s")}) for t in model] if isinstance(model, list) else model
+        diffs = [] if impl == want else [("tags", impl, want)]
     elif case.get("op") == "lookup":
         by_parser = {}
         for ext, parser in K.translate()["ext"]:
